@@ -319,3 +319,18 @@ Lemma gen_network3_ok :
   map (fun e : nat * (nat * nat) * (nat * nat) * nat * (nat * nat) * nat * nat * bool => let '(v, p, _, _, _, _, _, _) := e in (v, p)) gen_network3
   = [(0, (0, 1)); (1, (0, 2)); (2, (1, 2))].
 Proof. split; reflexivity. Qed.
+
+(** * simd_vector/simd_vector_*.h: every alignment-requiring load / store intrinsic of the six SIMD vector class
+    files - as translated - sits under `if (Aligned)`, in the else of `if (!Aligned)`, or inside aligned_load /
+    aligned_store (which only is_aligned() callers reach): none is unguarded.  (The helper functions of extintrin.h
+    are not part of this census.) *)
+Lemma gen_simd_aligned_sites_ok :
+  forallb (fun e : nat * nat => negb (snd e =? 0)) gen_simd_aligned_sites = true /\ 120 <= List.length gen_simd_aligned_sites.
+Proof. split; [reflexivity | vm_compute; repeat constructor]. Qed.
+
+(** the masked loads / stores, which the matmul remainder kernels apply to row tails that are not vector aligned,
+    default to the unaligned form in every class *)
+Lemma gen_simd_aligned_defaults_ok :
+  forallb (fun e : nat * bool * bool => let '(_, masked, dflt) := e in if masked then negb dflt else true) gen_simd_aligned_defaults = true /\
+  12 <= List.length (filter (fun e : nat * bool * bool => let '(_, masked, _) := e in masked) gen_simd_aligned_defaults).
+Proof. split; [reflexivity | vm_compute; repeat constructor]. Qed.
